@@ -677,17 +677,18 @@ func (c *RemoteClient) GetOutputs(ctx context.Context,
 		}
 
 		if int(outpoint.Index) >= len(tx.TxOut) {
-			return nil, errors.Wrap(err, "invalid index")
+			return nil, fmt.Errorf("invalid index %d for tx %s", outpoint.Index, outpoint.Hash)
 		}
 		outputs[i] = tx.TxOut[outpoint.Index]
 
 		// Check if other outpoints have the same txid.
-		for j := range outpoints[i+1:] {
+		for j := i + 1; j < len(outpoints); j++ {
 			if outpoints[j].Hash.Equal(&outpoint.Hash) {
-				if int(outpoint.Index) >= len(tx.TxOut) {
-					return nil, errors.Wrap(err, "invalid index")
+				if int(outpoints[j].Index) >= len(tx.TxOut) {
+					return nil, fmt.Errorf("invalid index %d for tx %s", outpoints[j].Index,
+						outpoints[j].Hash)
 				}
-				outputs[j] = tx.TxOut[outpoint.Index]
+				outputs[j] = tx.TxOut[outpoints[j].Index]
 			}
 		}
 	}
@@ -1794,7 +1795,7 @@ func (c *RemoteClient) handleRequestResponse(ctx context.Context, message *Messa
 	case *Header:
 		blockHash := *msg.Header.BlockHash()
 		for i, request := range c.requests {
-			if request.typ == MessageTypeGetHeaders && request.hash.Equal(&blockHash) {
+			if request.typ == MessageTypeGetHeader && request.hash.Equal(&blockHash) {
 				request.response <- message
 				c.requests = append(c.requests[:i], c.requests[i+1:]...)
 				return nil
